@@ -19,6 +19,9 @@ func TestFixtureSanity(t *testing.T) {
 		if err := n.Scheme.VerifyBeacon(&common.Beacon{Round: 5, Signature: a, PreviousSig: prev}, n.PublicKey()); err != nil {
 			t.Fatalf("%s: %v", sn, err)
 		}
+		if !bytes.Equal(n.Digest(5, prev), n.RepoDigest(5, prev)) {
+			t.Fatalf("%s: reference digest differs from the repository's", sn)
+		}
 		m := n.Reshare(ReshareOpts{Keep: []int{0, 2, 3}, Add: 2, T: 4, Transition: 2000, Label: "e2"})
 		if !m.PublicKey().Equal(n.PublicKey()) {
 			t.Fatalf("reshare changed key")
